@@ -7,6 +7,7 @@ mod c06;
 mod c07;
 mod c08;
 mod c09;
+mod c10;
 mod c11;
 mod c12;
 mod c13;
@@ -60,6 +61,7 @@ fn main() {
         "C07" => c07::run(&mut ctx),
         "C08" => c08::run(&mut ctx),
         "C09" => c09::run(&mut ctx),
+        "C10" => c10::run(&mut ctx),
         "C11" => c11::run(&mut ctx),
         "C12" => c12::run(&mut ctx),
         "C06" => c06::run(&mut ctx),
